@@ -18,7 +18,7 @@ for n in names:
     if ap.returncode != 0:
         res = {'apply': 'FAILED: ' + ap.stderr[-200:]}
     else:
-        for chk in [prop] + ALSO.get(prop, []):
+        for chk in [prop] + ([] if os.environ.get('MATRIX_ONLY_OWN') else ALSO.get(prop, [])):
             env = dict(os.environ, VERIF_REPO=wt, VERIF_EVIDENCE_DIR='/tmp/mx_evidence', VERIF_KEEP_BUILDS='6')
             t = time.time()
             p = subprocess.run([V + '/check', chk, '--tier', 'quick'], cwd=V, env=env, capture_output=True, text=True)
